@@ -3,6 +3,7 @@
 // own varint / fixed / CRC32C, and the *system* compression libraries called directly.
 #pragma once
 #include "vf.h"
+#include "tbl.h"
 
 #include <lz4.h>
 #include <lz4hc.h>
